@@ -173,9 +173,15 @@ struct Done {
     mutations: u64,
 }
 
-fn explore_type(ft: &Ft, aliens: &[Fv], t: &mut Tally, values_n: &mut u64, mutations_n: &mut u64) {
+/// `mutate_all`: mutate every valid value; otherwise only three of them
+/// (the second, the middle and the last one — the last value of every
+/// container is the fully populated one, so every position of the type still
+/// meets every alien).
+fn explore_type(ft: &Ft, aliens: &[Fv], mutate_all: bool, t: &mut Tally, values_n: &mut u64, mutations_n: &mut u64) {
     let schema = schema_for(ft);
     let vals = values::valid_values(ft);
+    let n = vals.len();
+    let chosen = [1.min(n - 1), n / 2, n - 1];
     for (vi, v) in vals.iter().enumerate() {
         *values_n += 1;
         t.distinct.push(util::fnv64(format!("{ft:?}|{v:?}").as_bytes()));
@@ -190,6 +196,9 @@ fn explore_type(ft: &Ft, aliens: &[Fv], t: &mut Tally, values_n: &mut u64, mutat
                 recipe: None,
             };
             run_case(&case, entry, t);
+        }
+        if !mutate_all && !chosen.contains(&vi) {
+            continue;
         }
         for m in values::mutations(v, aliens) {
             *mutations_n += 1;
@@ -209,7 +218,7 @@ fn explore_type(ft: &Ft, aliens: &[Fv], t: &mut Tally, values_n: &mut u64, mutat
     }
 }
 
-fn run_level(run: &mut Run, name: &str, types: Vec<Ft>, deadline: Instant) -> bool {
+fn run_level(run: &mut Run, name: &str, types: Vec<Ft>, mutate_all: bool, deadline: Instant) -> bool {
     let n_types = types.len() as u64;
     let threads = util::n_threads();
     // small chunks, interleaved, so that the deadline cuts evenly
@@ -226,7 +235,7 @@ fn run_level(run: &mut Run, name: &str, types: Vec<Ft>, deadline: Instant) -> bo
                 d.types_skipped += 1;
                 continue;
             }
-            explore_type(&w.ft, &aliens, &mut d.tally, &mut d.values, &mut d.mutations);
+            explore_type(&w.ft, &aliens, mutate_all, &mut d.tally, &mut d.values, &mut d.mutations);
             d.types_done += 1;
         }
         d
@@ -331,7 +340,9 @@ fn main() {
             run.cap_hit(&format!("time budget: {name} not started"));
             break;
         }
-        if !run_level(&mut run, name, types, deadline) {
+        // quick: below depth 3 every value is mutated, from depth 3 on three values per type
+        let mutate_all = thorough || i < 2;
+        if !run_level(&mut run, name, types, mutate_all, deadline) {
             break;
         }
         completed = i + 1;
@@ -346,13 +357,16 @@ fn main() {
         "valid_values": values::valid_values(&grammar::keyed(Ft::I64, Ft::Vector)).iter().map(|v| format!("{v:?}")).collect::<Vec<_>>(),
         "single_mutations_of_second_value": values::mutations(&values::valid_values(&grammar::keyed(Ft::I64, Ft::Vector))[1], &values::aliens()).len(),
     }));
-    run.rule(if thorough {
-        "FieldType grammar {Bool,I64,U64,F64,F32,Bytes,Text,Json,Vector; Option(T); Array([]); Array([T]); Array([T,U]); wildcard Map with Text/I64/Bytes key; keyed Map {a:T,b:Option(U)}}: depth 1 and 2 complete (9 + 208 types); depth 3 = unary constructors over all 208 depth-2 types + binary constructors over ALL pairs of depth<=2 types touching depth 2; depth 4 = unary constructors over the 1190 narrow depth-3 types + binary constructors over pairs of the 15 representative types {I64,F32,Vector,Json,Bytes; Option(I64), Array([F32]), Array([I64,Vector]), Map{i64*:Json}, {a:F32,b:Option(I64)}; the same five constructors one level up} touching depth 3"
+    let grammar_txt = "FieldType grammar {Bool,I64,U64,F64,F32,Bytes,Text,Json,Vector; Option(T); Array([]); Array([T]); Array([T,U]); wildcard Map with Text/I64/Bytes key; keyed Map {a:T} and {a:T,b:Option(U)}}";
+    let reps = "{I64,F32,Vector,Json,Bytes; Option(I64), Array([F32]), Array([I64,Vector]), Map{i64*:Json}, {a:F32,b:Option(I64)}}";
+    let (n1, n2, n3, n4) = (lv.l1.len(), lv.l2.len(), lv.l3.len(), lv.l4.len());
+    run.rule(&if thorough {
+        format!("{grammar_txt}: depth 1 and 2 complete ({n1} + {n2} types); depth 3 ({n3} types) = the 6 unary constructors over all depth-2 types + tuple / 2-key map over ALL pairs of depth<=2 types touching depth 2; depth 4 ({n4} types) = unary constructors over the narrow depth-3 set (unary over all depth-2 types + binary over representative pairs) + binary constructors over pairs of the 15 representative types ({reps} and the same five constructors one level up) touching depth 3")
     } else {
-        "FieldType grammar {Bool,I64,U64,F64,F32,Bytes,Text,Json,Vector; Option(T); Array([]); Array([T]); Array([T,U]); wildcard Map with Text/I64/Bytes key; keyed Map {a:T,b:Option(U)}}: depth 1 and 2 complete (9 + 208 types); depth 3 = unary constructors (Option, Array([T]), 3 wildcard maps) over all 208 depth-2 types + binary constructors (tuple, keyed map) over pairs of the 10 representative types {I64,F32,Vector,Json,Bytes; Option(I64), Array([F32]), Array([I64,Vector]), Map{i64*:Json}, {a:F32,b:Option(I64)}} touching depth 2"
+        format!("{grammar_txt}: depth 1 and 2 complete ({n1} + {n2} types); depth 3 ({n3} types) = the 6 unary constructors over all depth-2 types + tuple / 2-key map over pairs of the 10 representative types {reps} touching depth 2; depth 4 ({n4} types) = unary constructors over the depth-3 types built from representative children + binary constructors over pairs of the 15 representative types (those 10 + the five constructors one level up) touching depth 3")
     });
     run.rule(
-        "per type: valid values cover every leaf boundary value (i64::MIN,-1,0,i64::MAX; 0,i64::MAX,i64::MAX+1,u64::MAX; +-0.0, subnormal, f32::MAX, 2.71, extremes, infinities; 11 bf16 edge bit patterns incl. NaN patterns; empty/non-empty containers; Null/absent for Option) at least once per container position; per valid value EVERY single mutation: each node swapped with each of 27 alien values (all variants, Null, out-of-range integers, NaN, non-read-back floats, read-back shapes), array drop-last/append, map remove-each-key/extra key of each key kind; each case through set_field and try_from (+Schema::validate + CBOR bytes), accepted ones read back via DocumentOwned/try_from_doc and compared in the declared variant (bit-exact); 100+ complexity-budget probes at limit / limit+1 (depth 64, nodes 16384, array 4096, map 4096) in typed, untyped and Json positions; distinct = (type, valid value) pairs and budget probes",
+        "per type: valid values cover every leaf boundary value (i64::MIN,-1,0,i64::MAX; 0,i64::MAX,i64::MAX+1,u64::MAX; +-0.0, subnormal, f32::MAX, 2.71, extremes, infinities; 11 bf16 edge bit patterns incl. NaN patterns; empty/non-empty containers; Null/absent for Option) at least once per container position; per valid value (quick, depth >= 3: for three values per type — second, middle and the fully populated last one; otherwise for every value) EVERY single mutation: each node swapped with each of 27 alien values (all variants, Null, out-of-range integers, NaN, non-read-back floats, read-back shapes), array drop-last/append, map remove-each-key/extra key of each key kind; each case through set_field and try_from (+Schema::validate + CBOR bytes), accepted ones read back via DocumentOwned/try_from_doc and compared in the declared variant (bit-exact); 100+ complexity-budget probes at limit / limit+1 (depth 64, nodes 16384, array 4096, map 4096) in typed, untyped and Json positions; distinct = (type, valid value) pairs and budget probes",
     );
     run.assume("validity is judged by the documented contract: declared variant or a documented read-back shape (U64<=i64::MAX for I64, CBOR/JSON f32 read-backs for F32, u16 bit-pattern arrays for Vector); anything offered to a Json slot other than the Json variant, NaN inside an untyped array and budget verdicts that differ between raw and canonical form are 'unspecified' (accept or reject, but must round-trip if accepted)");
     run.assume("where the schema declares no variant (elements of Array([]), non-Json contents of a Json slot) equality is equality of the documented schema-less form (I64>=0 = U64, F32 = F64 widening, Vector = array of bit patterns, Json = its shape); under Option, Json(null) and Null are the same value");
